@@ -169,26 +169,37 @@ Fixpoint create_m (fl : bool) (m : member) (p : path) {struct m} : obj :=
   end.
 Definition top (x : sigt) : member := Iface FOut (fst x) (snd x) [].
 Definition create (x : sigt) (p : path) : obj := create_m false (top x) p.
+(* Component.__init__: attributes created from the (observable) members on the component itself, never wrapped *)
+Definition create_component (x : sigt) : obj :=
+  OIf false x (map (fun nm => (fst nm, create_dims (create_m (fst x) (snd nm)) (m_dims (snd nm)) [PN (fst nm)])) (snd x)).
 
 (* ---------- Signature.is_compliant ---------- *)
-Fixpoint all_res {A} (f : A -> res bool) (l : list A) : res bool :=
-  match l with
-  | [] => Ok true
-  | a :: r => match f a with Ok true => all_res f r | other => other end
-  end.
+(* `for ...: if not check(...): result = False; if reasons is None: break` — sc = short-circuit (reasons is None);
+   exceptions propagate in both modes *)
+Definition all_res {A} (sc : bool) (f : A -> res bool) : list A -> res bool :=
+  fix go (l : list A) : res bool :=
+    match l with
+    | [] => Ok true
+    | a :: r =>
+        match f a with
+        | Err e => Err e
+        | Ok true => go r
+        | Ok false => if sc then Ok false else match go r with Ok _ => Ok false | Err e => Err e end
+        end
+    end.
 
-Fixpoint check_dims (chk : obj -> res bool) (dims : list nat) (v : obj) : res bool :=
+Fixpoint check_dims (sc : bool) (chk : obj -> res bool) (dims : list nat) (v : obj) : res bool :=
   match dims with
   | [] => chk v
   | d :: rest =>
       match v with
-      | OArr l => if Nat.eqb (length l) d then all_res (check_dims chk rest) l else Ok false
+      | OArr l => if Nat.eqb (length l) d then all_res sc (check_dims sc chk rest) l else Ok false
       | _ => Ok false
       end
   end.
 
 (* check_attr_value for a member as observed in a signature with flag fl *)
-Fixpoint compl_m (fl : bool) (m : member) (v : obj) {struct m} : res bool :=
+Fixpoint compl_m (sc : bool) (fl : bool) (m : member) (v : obj) {struct m} : res bool :=
   match m with
   | Port _ sh i _ =>
       match v with
@@ -202,15 +213,17 @@ Fixpoint compl_m (fl : bool) (m : member) (v : obj) {struct m} : res bool :=
       | None => Ok false
       | Some y =>
           if negb (sig_eqb x y) then Ok false else
-          all_res (fun nm =>
+          all_res sc (fun nm =>
                      match obj_get v (fst nm) with
                      | GMissing => Ok false
                      | GTypeErr => Err ETypeErr
-                     | GVal c => check_dims (compl_m (fst x) (snd nm)) (m_dims (snd nm)) c
+                     | GVal c => check_dims sc (compl_m sc (fst x) (snd nm)) (m_dims (snd nm)) c
                      end) ms
       end
   end.
-Definition is_compliant (x : sigt) (o : obj) : res bool := compl_m false (top x) o.
+Definition is_compliant (x : sigt) (o : obj) : res bool := compl_m true false (top x) o.
+(* second call in connect(): is_compliant(obj, reasons=[...]) does not stop at the first failure *)
+Definition is_compliant_reasons (x : sigt) (o : obj) : res bool := compl_m false false (top x) o.
 
 (* ---------- Signature.flatten(obj): leaves only, indices in paths ---------- *)
 Record leaf := Leaf { l_path : path; l_flow : flow; l_shape : shape; l_init : Z; l_val : obj }.
@@ -379,7 +392,7 @@ Fixpoint check_args (objs : list obj) : res (list sigt) :=
       | Some x =>
           match is_compliant x o with
           | Err e => Err e
-          | Ok false => Err ENotCompliant
+          | Ok false => match is_compliant_reasons x o with Err e => Err e | Ok _ => Err ENotCompliant end
           | Ok true => match check_args r with Ok xs => Ok (x :: xs) | Err e => Err e end
           end
       end
